@@ -65,17 +65,22 @@ def mirrors_for(unit, qual, kind='body'):
     if unit == 'core_net_build':
         fam = '6' if '::ipv6::' in qual else '4'
         name = qual.split('::')[-1]
-        if name.startswith('extract_') or name == 'udp_payload_has_magic_prefix':
-            if post:
-                return ['k4_roundtrip_udp', 'k4_roundtrip_icmp'] if fam == '4' else []
-            proto = 'udp' if 'udp' in name else ('tcp' if 'tcp' in name else 'icmp')
-            return ['k%s_recv_nopanic_%s' % (fam, proto)]
-        if name in ('make_ipv4_packet', 'make_udp_packet', 'make_echo_request_icmp_packet', 'icmp_payload_size', 'udp_payload_size') and fam == '4':
-            return ['k4_dispatch_udp_33', 'k4_dispatch_icmp_33']
-        if name == 'calc_udp_checksum':
-            return ['k4_dispatch_udp_33']
+        if post:
+            return []
+        if name in ('extract_udp_packet', 'udp_payload_has_magic_prefix'):
+            return ['k%s_recv_nopanic_udp' % fam]
+        if name == 'extract_tcp_packet':
+            return ['k%s_recv_nopanic_tcp' % fam]
+        if name == 'extract_echo_request':
+            return ['k%s_recv_nopanic_icmp' % fam]
+        if name == 'extract_probe_proto_resp':
+            return ['k%s_recv_nopanic_udp' % fam, 'k%s_recv_nopanic_tcp' % fam, 'k%s_recv_nopanic_icmp' % fam]
     return []
 
+
+# harnesses that take minutes and tens of GB: never used as arbitration mirrors in the quick tier
+HEAVY_HARNESSES = set(['k4_recv_nopanic_icmp', 'k4_recv_nopanic_udp', 'k4_recv_nopanic_tcp', 'k6_recv_nopanic_icmp', 'k6_recv_nopanic_udp', 'k6_recv_nopanic_tcp',
+                       'k4_roundtrip_icmp', 'k4_roundtrip_udp', 'k4_dispatch_udp_28', 'k4_dispatch_udp_33', 'k4_dispatch_icmp_33', 'k6_dispatch_icmp_53', 'k6_dispatch_udp_dublin'])
 
 PROPS = {
     'C04': {
@@ -84,7 +89,8 @@ PROPS = {
         'level_text': 'Layer (a): for every public accessor of every packet view Verus discharges every slice index, range, copy length and arithmetic-overflow obligation under the single precondition len >= minimum size (unbounded buffer length), and termination/progress of the two extension iterators. Layer (b) (receive path of trippy-core) is decided by Kani harnesses on the real functions.',
         'level_note': 'Trusted: shims (from_be_bytes, to_be_bytes, address conversions), Buffer::get_bytes contract (Kani-discharged). Bounded stand-ins are labelled and not counted. platform/unix.rs socket code and ArrayVec capacity in dispatch_tcp_probe are outside.',
         'units': ['pkt_views', 'core_strategy', 'core_net_build'],
-        'kani': {'quick': PKT_NOPANIC_HARNESSES + ['k4_recv_nopanic_icmp', 'k4_recv_nopanic_udp', 'k4_recv_nopanic_tcp']},
+        'kani': {'quick': PKT_NOPANIC_HARNESSES,
+                 'thorough': PKT_NOPANIC_HARNESSES + ['k4_recv_nopanic_icmp', 'k4_recv_nopanic_udp', 'k4_recv_nopanic_tcp', 'k6_recv_nopanic_icmp', 'k6_recv_nopanic_udp', 'k6_recv_nopanic_tcp']},
         'assumptions': ['setters additionally require a mutable view and (set_payload) a payload that fits: caller obligations, discharged at the call sites in unit core_net_build'],
         'explanation': 'no-panic obligations of packet views',
     },
@@ -113,6 +119,7 @@ PROPS = {
         'level_text': 'For every round and every probe: received+failed <= sent, forward+backward loss <= sent-received-failed, address counts sum to received, best <= worst, last/best/worst present iff something was received, sample history newest-first and never longer than max_samples; sent/received/failed counters, last (rtt = receive - send), best = min, worst = max and the last-probe details are updated exactly as a recomputation from the round would. Holds after any history because it is an inductive invariant of FlowState.',
         'level_note': 'NOT covered (not applicable within C05): avg, stddev, jitter (javg, jinta, jmax), loss percentages - floating point recurrences, abstracted by havoc shims (T6). is_forward_loss (iterator adapters) is trusted in Verus; forward/backward loss counters are only bounded (at most one of them +1 per awaited probe). IndexMap is modelled by ghost counts (addrs_incr shim).',
         'units': ['core_state'],
+        'kani': {'quick': ['k_is_forward_loss_contract']},
         'assumptions': ['fewer than 2^48 rounds (usize counters do not overflow)', 'Duration addition does not overflow'],
         'not_applicable_parts': ['floating-point statistics: avg_ms, stddev_ms, javg, jinta, jmax, loss_pct'],
         'explanation': 'per-hop statistics',
@@ -151,7 +158,7 @@ PROPS = {
         'level_text': 'probe_icmp_data/probe_udp_data/probe_tcp_data are proved equal to the carrier table spec_probe_fields for every supported configuration (and never reach unimplemented!()); ProtocolStrategyResponse::from recovers the sequence from exactly the prescribed field (spec_recover_sequence); validate accepts exactly quotations with this tracer\'s destination, fixed port(s) and, for Dublin/IPv6, the marker. Lemma L1: for every supported configuration, every issuable sequence and round, the quotation of the probe is validated, passes the trace-id check and yields that sequence; L2: other destination, other fixed port or missing marker is rejected. The wire map assumed by L1 (ports->ports, IP id->identifier, UDP checksum field->actual checksum, UDP length->payload length) is checked on the real builders/parsers by Kani harnesses (bounded).',
         'level_note': 'Kani round-trip harnesses are bounded (concrete packet size 33, quotation = IP header+8 octets or full datagram, IPv4) and not counted as proved. TCP handshake answers (recv_tcp_socket) need a live socket: only field plumbing. IPv6 quotations: parser functions covered by the no-panic harnesses only.',
         'units': ['core_strategy'],
-        'kani': {'quick': ['k4_roundtrip_icmp', 'k4_roundtrip_udp']},
+        'kani': {'quick': [], 'thorough': ['k4_roundtrip_icmp', 'k4_roundtrip_udp']},
         'assumptions': [],
         'explanation': 'probe identity round trip',
     },
@@ -161,17 +168,18 @@ PROPS = {
         'level_text': 'make_ipv4_packet is proved to produce, for every payload and configuration, a header with version 4, IHL 5, the configured TOS, total length 20+payload in network order, the given identification, DF set / offset 0, the probe ttl, the protocol number, source and destination addresses and the payload at octet 20 (RFC 791 positions); make_udp_packet (v4 and v6): ports, length = 8+payload, payload, checksum = RFC 1071 over pseudo header and datagram; make_echo_request_icmp_packet (v4 and v6): type 8/128, code 0, identifier, sequence, pattern payload, checksum; payload-size helpers make the total size equal the configured packet size. All slice bounds of the builders are discharged at their call preconditions.',
         'level_note': 'The codec is used through contracts proved in units pkt_views / pkt_checksum (imported, not re-verified). dispatch_* (socket calls, error mapping closures, Paris swap) are covered by bounded Kani harnesses with concrete packet sizes 28 and 33 (all other inputs symbolic), not by Verus. Non-raw/unprivileged paths and TCP: argument plumbing only; the IPv4 header checksum is the kernel\'s. Trusted: pattern_array/zero_array shims for `[x; N]`.',
         'units': ['core_net_build'],
-        'kani': {'quick': ['k4_dispatch_icmp_28', 'k4_dispatch_icmp_33', 'k4_dispatch_udp_28', 'k4_dispatch_udp_33', 'k4_dispatch_udp_paris']},
+        'kani': {'quick': ['k4_dispatch_icmp_28'],
+                 'thorough': ['k4_dispatch_icmp_28', 'k4_dispatch_icmp_33', 'k4_dispatch_udp_28', 'k4_dispatch_udp_33', 'k4_dispatch_udp_paris', 'k6_dispatch_icmp_53', 'k6_dispatch_udp_dublin']},
         'assumptions': ['Linux target: Ipv4ByteOrder::Host is compiled out'],
         'explanation': 'probe wire format',
     },
     'C15': {
         'level': 'proof',
         'technique': 'Verus contract on State::update_from_round / update_trace_flow over ghost views of the registry and the per-flow map, with the registry contract imported; bounded Kani stand-ins for flows.rs',
-        'level_text': 'State::update_from_round is proved to keep identifiers dense from 1 and stable, never to exceed max_flows, to count every round for the default flow, to attribute a round that matches a registered flow to the first such flow (its round count +1, round_flow_id set) also once max_flows is reached, and to touch no other flow. The registry operations themselves (Flow::check / merge / from_hops, FlowRegistry::register / contains_match) are iterator-adapter code: bounded Kani stand-ins (flows <= 3 entries, <= 2 registered flows).',
+        'level_text': 'State::update_from_round is proved to keep identifiers dense from 1 and stable, never to exceed max_flows, to count every round for the default flow, to attribute a round that matches a registered flow to the first such flow (its round count +1, round_flow_id set) also once max_flows is reached, and to touch no other flow. The registry operations themselves (Flow::check / merge / from_hops, FlowRegistry::register / contains_match) are iterator-adapter code: bounded Kani stand-ins (flows of 1-2 entries with concrete lengths, one registered flow).',
         'level_note': 'Trusted in the Verus unit: the contract of FlowRegistry::register / contains_match (as checked bounded by Kani), HashMap entry shim, FlowState::update_from_round contract (unit core_state), and round_flow(): the inline iterator chain that builds the round\'s flow (position <-> ttl) is NOT verified (D-C15b in DESIGN.md). Bounded stand-ins are not counted as proved.',
         'units': ['core_state_flows'],
-        'kani': {'quick': ['k_flow_check_contract', 'k_flow_merge_contract', 'k_flow_from_hops_contract', 'k_registry_register_contract']},
+        'kani': {'quick': ['k_flow_check_contract', 'k_flow_merge_2_1', 'k_flow_merge_1_2', 'k_flow_merge_2_2', 'k_flow_from_hops_contract', 'k_registry_register_2_1', 'k_registry_register_2_2', 'k_registry_contains_match_contract']},
         'assumptions': [],
         'explanation': 'flow attribution',
     },
@@ -197,8 +205,9 @@ PROPS = {
         'level': 'proof',
         'technique': 'Verus data-structure invariant on TracerState (sequence allocator + 512-slot buffer) preserved by every operation; separation lemmas',
         'level_text': 'The invariant wf (initial <= round_sequence <= sequence, at most 512 sequences per round, round_sequence < max_sequence, hence sequence <= 65534, every issued slot holds a probe of this round with sequence round_sequence+i) is established by new and preserved by next_probe, reissue_probe, fail_probe, complete_probe, advance_round, send_request, recv_response, update_round; every buffer index and every u16/u8 operation in these functions is proved in range; an exhausted TCP round yields Error::InsufficientCapacity; lemmas: a sequence of the preceding round is not accepted in the current one.',
-        'level_note': 'Trusted: as C03. The Dublin/IPv6 payload slice bound in dispatch_udp_probe_raw is discharged in unit core_net (C11).',
+        'level_note': 'Trusted: as C03. The Dublin/IPv6 payload slice bound in the real dispatch_udp_probe_raw is discharged by the loop-free Kani harness k6_dublin_payload_fits over every sequence the allocator can issue in that regime (sequence - initial <= 765).',
         'units': ['core_strategy'],
+        'kani': {'quick': ['k6_dublin_payload_fits']},
         'assumptions': [],
         'explanation': 'sequence allocator invariant',
     },
@@ -216,8 +225,9 @@ PROPS = {
         'level': 'proof',
         'technique': 'Verus contracts on run (loop invariant on the round counter), finished, do_send, send_request (TCP re-issue loop with invariant and decreases), fail_probe, reissue_probe',
         'level_text': 'finished is exactly round >= n; run\'s loop invariant keeps round <= n and success is returned only with round == n, every round increment being one publish_trace+advance_round (update_round contract), i.e. rounds 0..n-1; do_send turns Error::ProbeFailed into Ok with exactly that slot Failed and returns every other error unchanged; the TCP AddressInUse loop marks the abandoned slot Skipped and re-issues with the next sequence and the same ttl, and terminates (decreases 512 - round size); errors propagate through `?`.',
-        'level_note': 'Partial correctness: termination of run depends on wall time (exec_allows_no_decreases_clause). Not covered: TracerInner::run/handle_error writing the error through parking_lot::RwLock, ErrorMapper tables (Kani harness planned).',
+        'level_note': 'Partial correctness: termination of run depends on wall time (exec_allows_no_decreases_clause). ErrorMapper::{in_progress, addr_in_use, probe_failed} are proved by the loop-free Kani harness k_error_mapper_tables over every errno 1..=133. Not covered: TracerInner::run/handle_error writing the error through parking_lot::RwLock.',
         'units': ['core_strategy'],
+        'kani': {'quick': ['k_error_mapper_tables']},
         'assumptions': ['the usize round counter does not overflow (assume in Strategy::run)'],
         'explanation': 'termination and failure semantics',
     },
